@@ -389,8 +389,8 @@ def P24(m, R):
                 elif isinstance(s_, ast.Assign) and isinstance(s_.targets[0], ast.Subscript) and canon(s_.targets[0].value, al).endswith('.' + ro.START) and norm(s_.value) == acc:
                     sl = s_.targets[0].slice
                     if isinstance(sl, ast.Slice):
-                        lo = norm(subst(sl.lower, local_env)) if sl.lower is not None else None
-                        hi = norm(subst(sl.upper, local_env)) if sl.upper is not None else None
+                        lo = canon(subst(sl.lower, local_env), al) if sl.lower is not None else None
+                        hi = canon(subst(sl.upper, local_env), al) if sl.upper is not None else None
                         if lo == hi and lo == 'len(%s)' % new_list:
                             start_how = 'slice-insert-above-new'
                         else:
